@@ -71,6 +71,11 @@ class Prop:
                 if self.profile_sensitive:
                     jobs[("model", "relchk")] = ex.submit(ctx.run_all, [ctx.driver, "--checked"], ops, self.per_op_timeout)
         impl = {prof: jobs[("impl", prof)].result() for prof in ("release", "relchk")}
+        # third build: the crate without its `std` feature must answer exactly like the standard build
+        nostd = None
+        if getattr(ctx, "exe_nostd", None) and os.path.exists(ctx.exe_nostd):
+            nostd = ctx.run_all([ctx.exe_nostd], ops, self.per_op_timeout)
+            nostd_or = ctx.run_all([ctx.exe_nostd, "--oracle"], ops, self.per_op_timeout) if self.use_oracle else None
         model = None
         if ctx.driver:
             model = {"release": jobs[("model", "release")].result()}
@@ -101,6 +106,11 @@ class Prop:
                 if len(ctx.disagreements) < 20:
                     ctx.disagreements.append({"stream": f"{self.id}:{cls}:profiles", "op": op[:2000],
                                               "release": a_rel[:600], "relchk": a_chk[:600]})
+            if nostd is not None and (nostd[k] != a_rel or (nostd_or is not None and (nostd_or[k].startswith("FAIL") or nostd_or[k] in ("CRASH", "HANG", "PANIC")))):
+                ofail += 1
+                if len(ctx.violations) < 200:
+                    ctx.violations.append({"op": op[:4000], "class": cls, "profile": "nostd", "oracle": "FAIL C19/C20 the build without the crate's std feature answers differently: " + nostd[k][:300] + " | oracle: " + (nostd_or[k][:200] if nostd_or else ""),
+                                           "implementation": a_rel[:800], "model": None})
             for prof in oracle:
                 ans = oracle[prof][k]
                 if ans.startswith("FAIL") or ans in ("CRASH", "HANG", "PANIC"):
